@@ -127,6 +127,7 @@ type ruleSpec struct {
 	// rewrite derives (original, replacement) from a diagnostic; ok=false: the diagnostic makes no equivalence claim
 	rewrite func(l *exprgen.Linted, w linter.Warning, body string) (orig, repl string, ok bool)
 	class   func(orig, repl string) string
+	weight  int // how many instances relative to the default (0 = 1)
 }
 
 var (
@@ -220,7 +221,7 @@ var handSpecs = []ruleSpec{
 var ruleSpecs = append([]ruleSpec{
 	{checker: "sloppyLen", kind: "expr",
 		gen: func(p func(...string) string) string {
-			return "len(" + p("s", "xs", "bs", "fs()", "fxs()", "s + t") + ") " + p("<= 0", "<= 0", "<= 00")
+			return "len(" + p("s", "xs", "bs", "fs()", "fxs()", "s + t", "ms", "mi", "mm", "ma", "pa", "w.buf") + ") " + p("<= 0", "<= 0", "<= 00")
 		},
 		rewrite: func(l *exprgen.Linted, w linter.Warning, b string) (string, string, bool) {
 			if strings.Contains(w.Text, " is always ") {
@@ -230,7 +231,7 @@ var ruleSpecs = append([]ruleSpec{
 		}, class: classPurity},
 	{checker: "emptyStringTest", kind: "expr",
 		gen: func(p func(...string) string) string {
-			return "len(" + p("s", "t", "fs()", "s + t", "string(bs)") + ") " + p("!= 0", "> 0", "== 0", "<= 0")
+			return "len(" + p("s", "t", "fs()", "s + t", "string(bs)", "ms", "mm[0]", "string(ms)") + ") " + p("!= 0", "> 0", "== 0", "<= 0")
 		},
 		rewrite: fromRegexp(replaceRe, 1, 2), class: classPurity},
 	{checker: "stringXbytes", kind: "expr",
@@ -269,11 +270,11 @@ var ruleSpecs = append([]ruleSpec{
 		gen: func(p func(...string) string) string {
 			switch p("i", "f", "s") {
 			case "i":
-				return p("1", "0", "7", "010") + " " + p("!=", "==") + " " + p("a", "fi()", "a + b", "xs[a]", "len(s)")
+				return p("1", "0", "7", "010") + " " + p("!=", "==") + " " + p("a", "fi()", "a + b", "xs[a]", "len(s)", "mi[0]", "ma[a]", "int(u)")
 			case "f":
 				return p("1.5", "0.0", "2") + " " + p("!=", "==") + " " + p("p", "ff()", "p + q")
 			}
-			return p(`"a"`, `""`, "`ab`") + " " + p("!=", "==") + " " + p("s", "fs()", "s + t")
+			return p(`"a"`, `""`, "`ab`") + " " + p("!=", "==") + " " + p("s", "fs()", "s + t", "ms", "mm[0]")
 		},
 		rewrite: func(l *exprgen.Linted, w linter.Warning, body string) (string, string, bool) {
 			m := yodaRe.FindStringSubmatch(w.Text)
@@ -313,21 +314,45 @@ var ruleSpecs = append([]ruleSpec{
 		}},
 	{checker: "unslice", kind: "expr",
 		gen: func(p func(...string) string) string {
-			return p("s[:]", "xs[:]", "bs[:]", "fs()[:]", "fxs()[:]", "(s + t)[:]", "len(xs[:])")
+			return p("s[:]", "xs[:]", "bs[:]", "fs()[:]", "fxs()[:]", "(s + t)[:]", "len(xs[:])", "ms[:]", "mi[:]", "len(ma[:])", "len(pa[:])", "w.buf[:]", "mm[1][:]")
 		},
 		rewrite: fromQuickFix, class: classPurity},
-	{checker: "assignOp", kind: "stmts",
+	{checker: "assignOp", kind: "stmts", weight: 5,
+		// every operator of the rule group, every operand type it can be applied to (int, uint, float64,
+		// string, defined string type, slice element), both operand orders
 		gen: func(p func(...string) string) string {
-			x := p("a", "b", "xs[a]", "xs[fi()]", "p", "s")
-			switch {
-			case x == "s":
-				return "s = s + " + p("t", `"a"`, "fs()")
-			case x == "p":
-				return "p = p " + p("+", "-", "*", "/") + " " + p("1", "q", "ff()", "2.5")
+			type pool struct {
+				xs, ys, ops []string
 			}
-			return x + " = " + x + " " + p("+", "-", "*", "/", "%", "&", "|", "^", "<<", ">>", "&^") + " " + p("1", "b", "fi()", "3", "c")
+			pools := []pool{
+				{[]string{"a", "b", "xs[a]", "xs[fi()]", "mi[0]", "ma[1]", "pa[2]"}, []string{"1", "b", "c", "fi()", "3", "a"},
+					[]string{"+", "-", "*", "/", "%", "&", "|", "^", "<<", ">>", "&^"}},
+				{[]string{"u", "v"}, []string{"1", "v", "u", "fu()", "3"}, []string{"+", "*", "/", "%", "&", "|", "^", "<<", ">>", "&^"}},
+				{[]string{"p", "q"}, []string{"1", "q", "p", "ff()", "2.5"}, []string{"+", "-", "*", "/"}},
+				{[]string{"s", "t"}, []string{"t", "s", `"a"`, "fs()", `"é"`}, []string{"+"}},
+				{[]string{"ms"}, []string{"ms", `"a"`, "myStr(t)"}, []string{"+"}},
+				{[]string{"mm[0]", "w.buf[0]"}, []string{"t", `"b"`, "1"}, []string{"+"}},
+			}
+			pl := pools[map[string]int{"i": 0, "u": 1, "f": 2, "s": 3, "m": 4, "e": 5}[p("i", "i", "u", "f", "s", "s", "m", "e")]]
+			x, y, op := p(pl.xs...), p(pl.ys...), p(pl.ops...)
+			if p("xy", "xy", "yx") == "yx" {
+				return x + " = " + y + " " + op + " " + x
+			}
+			return x + " = " + x + " " + op + " " + y
 		},
-		rewrite: fromRegexp(replaceRe, 1, 2), class: classPurity},
+		rewrite: fromRegexp(replaceRe, 1, 2),
+		class: func(orig, repl string) string {
+			if impure(orig) {
+				return "impure-operand"
+			}
+			// `x = y op x` rewritten to `x op= y`: only sound for commutative op on this operand type
+			lhs := strings.TrimSpace(strings.SplitN(orig, "=", 2)[0])
+			rhs := strings.TrimSpace(strings.SplitN(orig, "=", 2)[1])
+			if !strings.HasPrefix(rhs, lhs+" ") {
+				return "operand-order"
+			}
+			return "unclassified"
+		}},
 	{checker: "valSwap", kind: "stmts",
 		gen: func(p func(...string) string) string {
 			x := p("a", "xs[a]", "xs[fi()]", "s", "xs[0]", "xs[b]")
@@ -403,7 +428,11 @@ func runRules(meta *common.Meta, tier string, seed int64, outDir string) {
 	var progs []*ruleProg
 	for _, sp := range ruleSpecs {
 		seen := map[string]bool{}
-		for tries := 0; tries < perRule*6 && len(seen) < perRule; tries++ {
+		want := perRule
+		if sp.weight > 0 {
+			want *= sp.weight
+		}
+		for tries := 0; tries < want*6 && len(seen) < want; tries++ {
 			b := sp.gen(pick)
 			if seen[b] {
 				continue
@@ -530,7 +559,7 @@ var newDerefTypes = []string{"int", "float64", "string", "bool", "uint", "int32"
 
 func runNewDeref(meta *common.Meta, outDir string) {
 	var src strings.Builder
-	src.WriteString("package p\n" + exprgen.LintPreamble + "type myInt int\ntype myStr string\n")
+	src.WriteString("package p\n" + exprgen.LintPreamble + "type myInt int\n")
 	for i, t := range newDerefTypes {
 		fmt.Fprintf(&src, "func d%d() interface{} { return *new(%s) }\n", i, t)
 	}
